@@ -63,6 +63,20 @@ TARGETS = {
                  "--extern-fn", "Marker::from_u8=marker_of_u8:Marker", "--drop-param", "bump",
                  "--import", "Gen.NanBoxGen", "--import", "Base.F64", "--import", "Read.LazyTypes"],
     },
+    # provider/src/read/lazy_value_ref.rs: the LOOPS of the lazy reader - ArrayRef/ObjectRef::get_at_index, ObjectRef::get_property,
+    # the three finish_processing (mutually recursive), and the methods of LazyValueRef the exported functions call - as one mutual
+    # Fixpoint on fuel with the `for` loops lifted (C01, C08, C11)
+    "LazyLoopsGen": {
+        "src": "provider/src/read/lazy_value_ref.rs",
+        "args": ["--types", "", "--impl-of", "LazyValueRef,ArrayRef,ObjectRef", "--fuel",
+                 "--only", "get_at_index,get_property,finish_processing,get_value_length,get_utf8_str_addr,get_key_at_index,get_object_property",
+                 "--use", "new", "--extern-enum", "ErrorCode=EC_", "--extern-consts-of-w",
+                 "--foreign", "StringRef{ptr:usize;len:usize}",
+                 "--foreign", "ArrayRef{len:usize;processed_elements:Vec<LazyValueRef>;end_position_of_last_processed_element:usize}",
+                 "--foreign", "ObjectRef{len:usize;processed_elements:Vec<(LazyValueRef,LazyValueRef)>;end_position_of_last_processed_element:usize}",
+                 "--foreign", "LazyValueRef{Null;Bool(bool);Number(f64);String(StringRef);Array(ArrayRef);Object(ObjectRef)}",
+                 "--drop-param", "bump", "--import", "Gen.NanBoxGen", "--import", "Read.LazyTypes", "--import", "Gen.LazyNewGen"],
+    },
     # api/src/read.rs: the body of impl_deserialize_for_int! instantiated for its ten integer types (C10)
     "IntDeserGen": {
         "src": "api/src/read.rs",
@@ -71,10 +85,11 @@ TARGETS = {
                  "--foreign", "Value{n:Option<f64>}", "--extern-method", "Value::as_number=value_as_number:Option<f64>",
                  "--import", "Base.F64", "--import", "Api.IntDeser", "--import", "Api.IntDeserExt"],
     },
-    # api/src/lib.rs: Value::array_len / obj_len - the inline length, the sentinel and the length query (C11)
+    # api/src/lib.rs: Value::array_len / obj_len - the inline length, the sentinel and the length query (C11) - and the accessors
+    # that only look at the handle: as_bool, is_null, as_number, is_obj, is_array, as_error (C06)
     "ApiLenGen": {
         "src": "api/src/lib.rs",
-        "args": ["--types", "Value", "--only", "array_len,obj_len", "--also", "{repo}/core/src/read.rs:NanBox,ValueRef", "--newtype", "NanBox",
+        "args": ["--types", "Value", "--only", "array_len,obj_len,as_bool,is_null,as_number,is_obj,is_array,as_error", "--also", "{repo}/core/src/read.rs:NanBox,ValueRef", "--newtype", "NanBox",
                  "--assoc-consts-of-w", "", "--extern-enum", "ErrorCode=EC_", "--extern-consts-of-w",
                  "--extern-fn", "shopify_function_input_get_val_len=ffi_get_val_len:usize", "--oracle", "ffi_get_val_len:N -> N",
                  "--import", "Gen.NanBoxGen", "--import", "NanBox.NanBoxExt", "--import", "Gen.NanBoxFnGen"],
@@ -133,7 +148,7 @@ def generate(repo, name, coq_dir=None):
                        stdout=subprocess.PIPE, stderr=subprocess.STDOUT, text=True, timeout=120)
     if p.returncode != 0:
         raise TranslatorError(p.stdout.strip()[-800:] or "T8: rs2v failed")
-    n = sum(1 for l in open(out) if l.startswith("Definition ") and "(W : N) (trap : bool)" in l)
+    n = sum(1 for l in open(out) if l.startswith(("Definition ", "Fixpoint ", "with ")) and "(W : N) (trap : bool)" in l)
     return dict({"file": "Gen/" + name + ".v", "source": t["src"], "functions_translated": n}, **extra)
 
 
